@@ -1499,9 +1499,15 @@ class FortranFile:
                 line_no_comment = line
             # Split lines with semicolons, place the multiple lines into a stack
             if line_stripped.find(";") >= 0:
-                multi_lines.extendleft(line_stripped.split(";"))
+                # Cut the statement text, character literals included, where the
+                # line with blanked literals has its semicolons
+                statements, start = [], 0
+                for part in line_stripped.split(";"):
+                    statements.append(line_no_comment[start : start + len(part)])
+                    start += len(part) + 1
+                multi_lines.extendleft(statements)
                 line = multi_lines.pop()
-                line_stripped = line
+                line_stripped = strip_strings(line, maintain_len=True)
                 line_no_comment = line
             # Test for scope end
             if file_ast.end_scope_regex is not None:
